@@ -171,8 +171,22 @@ def main(tier: str, replay: str | None = None) -> int:
     cases = gen_cases(ck.rng, tier)
     # one pack per cert: one function per statement
     packs = []
+    # packs with ONE statement: its constant (if any) is the only constant of the whole pack
+    # (0 as the only constant, INT_MIN as the only constant, no constant at all)
+    solo = []
+    for ci in range(len(CERTS)):
+        for opsrc in ("*=", "/=", "%=", "<", ">", "><", "+=", "-=", "="):
+            for z in (0, 5, INT_MIN):
+                solo.append(dict(cert=ci, target="$x", op=opsrc, vop=BINOPS[opsrc], operand=("lit", z),
+                                 stmt=f"$x {opsrc} {z};", solo=True))
+        solo.append(dict(cert=ci, target="$x", op="*=", vop="VMul", operand=("lit", 0), stmt="$x *= -0;", solo=True))
+    base = len(cases)
+    cases = cases + solo
+    for k in range(base, len(cases)):
+        c = cases[k]
+        packs.append((c["cert"], [k], dict(src=f"function f{k}() {{ {c['stmt']} }}", cert=cert_text(CERTS[c["cert"]]))))
     for ci, cert in enumerate(CERTS):
-        idx = [i for i, c in enumerate(cases) if c["cert"] == ci]
+        idx = [i for i, c in enumerate(cases) if c["cert"] == ci and not c.get("solo")]
         for start in range(0, len(idx), 400):
             part = idx[start:start + 400]
             src = "\n".join(f"function f{i}() {{ {cases[i]['stmt']} }}" for i in part)
@@ -207,6 +221,9 @@ def main(tier: str, replay: str | None = None) -> int:
                 else:
                     fns[f"f{i}"] = f"<error {r['exc']}: {r['msg'][:200]}>"
         pack_ints.append(set(ints))
+        load_text = fns.get(cert["LOAD"], "") if res["ok"] else None
+        head = [] if load_text is None else [l for l in load_text.split("\n") if l and not re.match(
+            r"^scoreboard players set (-?\d+) %s (-?\d+)$" % re.escape(cert["INT"]), l)]
         terms = []
         for i in part:
             c = cases[i]
@@ -218,7 +235,9 @@ def main(tier: str, replay: str | None = None) -> int:
                 "Import ListNotations.\nOpen Scope string_scope.\n"
                 f"Definition cases := [\n" + ";\n".join(terms) + "\n].\n"
                 "Eval vm_compute in mismatches cases.\n"
-                f"Eval vm_compute in (if ints_ok cases {coq_list(coq_z(n) for n in sorted(set(ints)))} then [] else [1%nat]).\n")
+                + (f"Eval vm_compute in (if load_ok {names_term(cert)} cases {coq_list(coq_str(h) for h in head)} {coq_list(coq_z(n) for n in sorted(set(ints)))} then [] else [1%nat]).\n"
+                   if load_text is not None else
+                   f"Eval vm_compute in (if ints_ok cases {coq_list(coq_z(n) for n in sorted(set(ints)))} then [] else [1%nat]).\n"))
         coq_files.append((f"cases_{pi}.v", body))
     outs = run_coq_files(PROP, coq_files)
 
@@ -274,8 +293,11 @@ def main(tier: str, replay: str | None = None) -> int:
                           cases=[dict(statement=cases[i]["stmt"], real=cases[i]["real"], model=m)
                                  for i, m in zip(silent[:5], model_out)], n_differing=len(silent)), no_input=True)
     if ints_bad:
-        ck.violation(dict(kind="int-constants-differ", packs=ints_bad,
-                          note="__load__ does not materialise exactly the constants the model requests"), no_input=True)
+        ck.violation(dict(kind="load-function-differs", packs=ints_bad,
+                          statements=[cases[packs[pi][1][0]]["stmt"] for pi in ints_bad if len(packs[pi][1]) == 1][:5],
+                          note="__load__ does not create the objectives / materialise exactly the constants the model requests "
+                               "(Run.C01.load_ok: head lines of __load__ and the set of `players set <n> INT <n>` lines)"),
+                     no_input=not any(len(packs[pi][1]) == 1 for pi in ints_bad))
 
     distinct = len({(c["cert"], c["target"], c["op"], str(c["operand"])) for c in cases})
     hist = {}
